@@ -107,12 +107,14 @@ def coq_event(ev):
     return '{| ev_w := %s; ev_r := %s |}' % (w, rr)
 
 def coq_obs(o):
-    return '(mk_obs %s %s %s %s %s %s %s %s %d %s %d %s)' % (
+    rb = o.get('rbuf', 'skip')
+    rbuf = 'None' if rb == 'skip' else '(Some %s)' % cob(rb)
+    return '(mk_obs %s %s %s %s %s %s %s %s %d %s %d %s %s)' % (
         C.coq_list(cb(x) for x in o['buffer']), C.coq_bool(o['must_flush']), C.coq_bool(o['reads_teared']),
         C.coq_bool(o['torn']), 'None' if o['plugin'] is None else '(Some %d)' % o['plugin'],
         'None' if o['state'] is None else '(Some %d)' % o['state'], cb(o['sent']),
         C.coq_list(cb(x) for x in o['hq']), o['orc'], C.coq_list(cb(x) for x in o['ocd']), o['parse'],
-        C.coq_bool(o['raised']))
+        C.coq_bool(o['raised']), rbuf)
 
 
 # ====================================================================== h11 as the independent judge
@@ -379,7 +381,8 @@ def run_handler(case, drain=True):
                 plugin=None if s.h.plugin is None else klasses.index(type(s.h.plugin)),
                 state=None if hq else s.h.request.state, sent=bytes(s.client.out), hq=hq, orc=rec['orc_calls'],
                 ocd=list(rec['ocd_data']), parse=rec['parse'], raised=any(t[0] == 'raised' for t in s.trace),
-                complete=bool(s.h.request.is_complete)))
+                complete=bool(s.h.request.is_complete),
+                rbuf='skip' if hq else (None if s.h.request.buffer is None else bytes(s.h.request.buffer))))
         final = None
         if drain:
             # let everything queued drain: the client accepts all, sends nothing more
@@ -695,7 +698,7 @@ def model_expr(case):
     t = term_handler(case, out)
     # CHandler cfg orc ocd evs expected -> the model's trace
     return ('match (%s) with CHandler cfg orc ocd evs _ => map (fun h => (buffer h, (must_flush h, reads_teared h, torn h), plugin h, '
-            'state (request h), sent h, map fst (hq h), (orc_calls h, ocd h, parse_calls h), escaped h)) (run_trace cfg orc ocd evs) | _ => [] end') % t
+            'state (request h), Parser.buffer (request h), sent h, map fst (hq h), (orc_calls h, ocd h, parse_calls h), escaped h)) (run_trace cfg orc ocd evs) | _ => [] end') % t
 
 
 # ====================================================================== generation
